@@ -178,6 +178,20 @@ func c17Case(t *rapid.T, extreme bool) {
 		}
 		prof := drawProfile(t)
 		total := 0.0
+		// magnitudes: values drawn in [1e-4,1e4] are moved, all together, to the bottom or the top of the float range
+		// (still at least three decades inside both mappings' ranges before and after scaling); at the bottom the heaviest weights are over-represented (weight / bin width is then at its largest)
+		mag := 1.0
+		if !extreme && rapid.IntRange(0, 4).Draw(t, "magclass") == 0 {
+			mag = rapid.SampledFrom([]float64{1e-296, 1e-296, 1e-290, 1e-270, 1e-200, 1e200, 1e270, 1e285}).Draw(t, "mag")
+			lo := math.Max(m1.MinIndexableValue(), m2.MinIndexableValue()) * 1e3
+			hi := math.Min(m1.MaxIndexableValue(), m2.MaxIndexableValue()) / 1e3
+			for _, f := range []float64{1, scale} {
+				if 1e-4*mag*f < lo || 1e4*mag*f > hi {
+					mag = 1
+				}
+			}
+			cl.labelIf(mag != 1, "magnitude:extreme")
+		}
 		for i := 0; i < n; i++ {
 			var v float64
 			if pool != nil {
@@ -185,12 +199,13 @@ func c17Case(t *rapid.T, extreme bool) {
 			} else {
 				v = gen.LogUniform(1e-4, 1e4).Draw(t, "v")
 				if rapid.IntRange(0, 3).Draw(t, "near") == 0 && i > 0 {
-					v = math.Abs(k.vals[len(k.vals)-1].V) * rapid.Float64Range(0.9, 1.1).Draw(t, "nearf")
-					if v < 1e-4 || v > 1e4 {
+					v = math.Abs(k.vals[len(k.vals)-1].V) / mag * rapid.Float64Range(0.9, 1.1).Draw(t, "nearf")
+					if !(v >= 1e-4 && v <= 1e4) {
 						v = 1
 					}
 				}
 			}
+			v *= mag
 			switch {
 			case prof.neg && (!prof.pos || rapid.Bool().Draw(t, "negv")):
 				v = -v
@@ -201,6 +216,9 @@ func c17Case(t *rapid.T, extreme bool) {
 			w := 1.0
 			if !unit {
 				w = gen.Weight(false).Draw(t, "w")
+			}
+			if mag < 1e-250 && rapid.Bool().Draw(t, "heaviest") {
+				w = 1 << 20
 			}
 			if !bud.Fits(total + w) {
 				break
